@@ -70,7 +70,7 @@ Theorem C17_resize : forall c s s' o,
   /\ (max_partitions < partition_count (s_shared s) (s_factor s) -> In (SOEvError (partition_count (s_shared s) (s_factor s))) o)
   /\ (forall i, (i < length (s_parts s'))%nat -> (i < length (s_parts s))%nat -> nth_error (s_parts s') i = nth_error (s_parts s) i)
   /\ (forall i, (i < length (s_parts s'))%nat -> (length (s_parts s) <= i)%nat -> nth_error (s_parts s') i = Some None)
-  /\ s_capacity s' = held s' * s_factor s'.
+  /\ s_loop s' = SCreating (Z.min (partition_count (s_shared s) (s_factor s)) max_partitions).
 Proof. exact provision_count_v2. Qed.
 Print Assumptions C17_resize.
 
@@ -99,7 +99,7 @@ Print Assumptions C17_own_timer_clears.
 
 Example C17_nonvacuous :
   exists s os, srun (mkSCfg V2 1 0 true) (sinit (mkSCfg V2 1 0 true) 0 4)
-     [SAStart true; SILoopProvision; SAGiveMe 4; SILease 3; SILeaseRet (15 * sec); SASetShared 2; SILoopProvision;
+     [SAStart true; SILoopProvision; SICreateRet; SAGiveMe 4; SILease 3; SILeaseRet (15 * sec); SASetShared 2; SILoopProvision; SICreateRet;
       SASetReserved 7; STime (15 * sec); SIExpire 3] = Some (s, os)
     /\ length (s_parts s) = 2%nat /\ capacity s = 7.
 Proof. eexists. eexists. vm_compute. repeat split. Qed.
